@@ -28,6 +28,8 @@ CONSTANTS Rels,        \* set of REL tables (sequences of [off, info])
           Layouts,     \* dynamic-section layouts 1..4 (orders, noise tags, absent groups)
           PhdrLists,   \* program-header lists: sequences of [type, vaddr]
           Modes,       \* subset of {"static", "loader", "selfreloc"}
+          Variant,     \* "coded" | "rela_adds" (an independent mutant: one helper `*word += base + addend` for REL and RELA -
+                       \* RELA entries ADD to the place; invisible while the places are zero in the file, refuted by TLC here)
           BASE,        \* load base of the position-independent cases
           DYNVADDR     \* link-time address of the dynamic section
 RELADDR == 300         \* link-time addresses of the two tables (bounded configurations)
@@ -142,7 +144,7 @@ RelaLoop ==
             THEN pc' = "fault" /\ UNCHANGED <<mem, writes, i>>
             ELSE LET e == TableAt(base + ds.rela)[i + 1]
                  IN /\ IF IsRelative(e)
-                       THEN mem' = [mem EXCEPT ![e.off] = base + e.addend] /\ writes' = [writes EXCEPT ![e.off] = @ + 1]
+                       THEN mem' = [mem EXCEPT ![e.off] = IF Variant = "rela_adds" THEN @ + base + e.addend ELSE base + e.addend] /\ writes' = [writes EXCEPT ![e.off] = @ + 1]
                        ELSE UNCHANGED <<mem, writes>>
                     /\ i' = i + 1 /\ pc' = "rela_loop"
        ELSE pc' = "done" /\ i' = i /\ UNCHANGED <<mem, writes>>
